@@ -82,8 +82,8 @@ Proof.
 Qed.
 
 (* ---------- the context given by the root element and SVG's initial values ---------- *)
-Definition ctx_a (fx : bool) : eattr := over_a (root_a fx) initial_a.
-Definition ctx_t (fx : bool) : tattr := over_t (root_t fx) initial_t.
+Definition ctx_a (fx : fixes) : eattr := over_a (root_a fx) initial_a.
+Definition ctx_t (fx : fixes) : tattr := over_t (root_t fx) initial_t.
 
 (* The root element's attributes together with SVG's initial values are the
    default pen: this is what justifies nonDefaultAttr dropping default values.
@@ -91,16 +91,16 @@ Definition ctx_t (fx : bool) : tattr := over_t (root_t fx) initial_t.
    default or a root attribute changes in runtime.go.) *)
 Lemma ctx_a_default fx :
   ctx_a fx = mkA default_Fill default_Stroke (Some default_StrokeWidth) default_StrokeLinecap [].
-Proof. destruct fx; reflexivity. Qed.
+Proof. reflexivity. Qed.
 
 Lemma ctx_t_default fx :
   ctx_t fx = mkT default_TextAnchor default_Baseline (Some default_FontSize) (Some default_FontWeight)
-                 default_FontStyle (if fx then default_FontFamily else root_FontFamily) (Some default_LetterSpacing).
-Proof. destruct fx; reflexivity. Qed.
+                 default_FontStyle (if fx_family fx then default_FontFamily else root_FontFamily) (Some default_LetterSpacing).
+Proof. unfold ctx_t, root_t. destruct (fx_family fx); reflexivity. Qed.
 
 (* the attributes in effect inside a <g> that Push builds under pen p / font f *)
-Definition gctx_a (fx : bool) (p : pen) : eattr := over_a (nd_attr p) (ctx_a fx).
-Definition gctx_t (fx : bool) (f : fnt) : tattr := over_t (nd_tattr f) (ctx_t fx).
+Definition gctx_a (fx : fixes) (p : pen) : eattr := over_a (nd_attr p) (ctx_a fx).
+Definition gctx_t (fx : fixes) (f : fnt) : tattr := over_t (nd_tattr f) (ctx_t fx).
 
 Lemma gctx_a_spec fx p : gctx_a fx p = spec_paint p.
 Proof.
@@ -119,7 +119,7 @@ Proof.
     apply feqb_default_size in E. congruence.
   - destruct (PrimFloat.eqb (f_weight f) default_FontWeight) eqn:E; simpl; [|reflexivity].
     apply feqb_default_weight in E. congruence.
-  - destruct fx; [apply pick_nds | reflexivity].
+  - destruct (fx_family fx); [apply pick_nds | reflexivity].
   - destruct (same_text (f_ls f) default_LetterSpacing) eqn:E; simpl; [|reflexivity].
     apply same_text_eq in E. congruence.
 Qed.
@@ -135,7 +135,7 @@ Qed.
 
 (* ---------- the buffer invariant ----------
    every pending element was built by a drawing call under the CURRENT pen *)
-Inductive item_ok (fx : bool) (p : pen) : item -> Prop :=
+Inductive item_ok (fx : fixes) (p : pen) : item -> Prop :=
 | ok_plain g : is_text g = false -> item_ok fx p (IShape g a0 t0)
 | ok_clear c : item_ok fx p (IShape GClear (mkA (clear_color c) (clear_color c) None [] []) t0)
 | ok_text x y s : item_ok fx p (IShape (GText x y s) (text_attr fx p) t0)
@@ -150,7 +150,7 @@ Qed.
 
 Lemma text_paint_in_group fx p : over_a (text_attr fx p) (spec_paint p) = spec_text_paint fx p.
 Proof.
-  unfold text_attr, spec_text_paint. destruct fx; simpl.
+  unfold text_attr, spec_text_paint. destruct (fx_text fx); simpl.
   - unfold over_a; simpl. destruct (p_dash p); reflexivity.
   - unfold over_a; simpl. destruct (str_eqb (p_fill p) (p_stroke p)); simpl.
     + destruct (p_dash p); reflexivity.
@@ -232,31 +232,31 @@ Proof. reflexivity. Qed.
 
 Lemma lone_flat fx p f e :
   item_ok fx p e ->
-  (fx = false -> lone_ok p [e] = true) ->
+  lone_ok fx p [e] = true ->
   flat_item (ctx_a fx) (ctx_t fx)
             (set_tattr (if pen_is_default p then e else set_attr fx e (nd_attr p)) (nd_tattr f))
   = flat_item (gctx_a fx p) (gctx_t fx f) e.
 Proof.
-  intros Hok G. unfold gctx_a.
+  intros Hok G. unfold gctx_a. simpl in G. apply andb_true_iff in G as [G1 G2].
   destruct Hok as [g Hg | c | x y s | c l].
   - (* plain shape *)
     destruct (pen_is_default p) eqn:D.
     + rewrite (nd_attr_default p D). simpl. rewrite Hg. simpl. rewrite Hg, !over_a_a0. reflexivity.
-    + destruct fx; do 3 (simpl; rewrite ?Hg); rewrite ?over_a_a0; reflexivity.
+    + do 3 (simpl; rewrite ?Hg); destruct (fx_lone fx); do 3 (simpl; rewrite ?Hg); rewrite ?over_a_a0; reflexivity.
   - (* clear *)
     destruct (pen_is_default p) eqn:D.
     + rewrite (nd_attr_default p D). simpl. rewrite !over_a_a0. reflexivity.
-    + destruct fx; simpl.
+    + simpl. destruct (fx_lone fx); simpl.
       * rewrite over_a_assoc. reflexivity.
-      * specialize (G eq_refl). simpl in G. rewrite D, clear_color_nonempty in G. discriminate.
+      * simpl in G1. rewrite clear_color_nonempty in G1. discriminate.
   - (* text *)
     unfold gctx_t.
     destruct (pen_is_default p) eqn:D.
     + rewrite (nd_attr_default p D). simpl. rewrite !over_a_a0, over_t_t0. reflexivity.
-    + destruct fx; simpl.
+    + simpl. unfold text_attr in *. destruct (fx_text fx); simpl.
       * rewrite over_a_assoc, over_t_t0. reflexivity.
-      * rewrite over_t_t0. specialize (G eq_refl). simpl in G. apply negb_true_iff in G.
-        pose proof (text_lone_fill (p_fill p) (p_stroke p) default_Fill G) as TL.
+      * rewrite over_t_t0. simpl in G2. apply negb_true_iff in G2.
+        pose proof (text_lone_fill (p_fill p) (p_stroke p) default_Fill G2) as TL.
         f_equal. f_equal. f_equal.
         rewrite ctx_a_default. unfold nd_attr, over_a; simpl.
         change default_Stroke with default_Fill in *.
@@ -265,24 +265,23 @@ Proof.
   - (* gridn group *)
     destruct (pen_is_default p) eqn:D.
     + rewrite (nd_attr_default p D). simpl. rewrite !over_a_a0. reflexivity.
-    + destruct fx; simpl.
+    + simpl. destruct (fx_lone fx); simpl.
       * rewrite over_a_assoc. reflexivity.
-      * specialize (G eq_refl). simpl in G. rewrite D in G. simpl in G.
-        destruct c; [|discriminate]. change (mkA [] [] None [] []) with a0.
+      * simpl in G1. destruct c; [|discriminate]. change (mkA [] [] None [] []) with a0.
         rewrite over_a_a0. reflexivity.
 Qed.
 
 (* ---------- what a state will show ---------- *)
-Definition flat_pushed (fx : bool) (st : state) : list fshape :=
+Definition flat_pushed (fx : fixes) (st : state) : list fshape :=
   flat_map (flat_top (ctx_a fx) (ctx_t fx)) (pushed st).
-Definition flat_pending (fx : bool) (st : state) : list fshape :=
+Definition flat_pending (fx : fixes) (st : state) : list fshape :=
   flat_map (flat_item (gctx_a fx (kpen (k st))) (gctx_t fx (kfnt (k st)))) (pending st).
-Definition total (fx : bool) (st : state) : list fshape := flat_pushed fx st ++ flat_pending fx st.
-Definition inv (fx : bool) (st : state) : Prop := Forall (item_ok fx (kpen (k st))) (pending st).
+Definition total (fx : fixes) (st : state) : list fshape := flat_pushed fx st ++ flat_pending fx st.
+Definition inv (fx : fixes) (st : state) : Prop := Forall (item_ok fx (kpen (k st))) (pending st).
 
 Lemma push_flat fx st :
   inv fx st ->
-  (fx = false -> lone_ok (kpen (k st)) (pending st) = true) ->
+  lone_ok fx (kpen (k st)) (pending st) = true ->
   flat_pushed fx (push fx st) = total fx st /\ pending (push fx st) = [] /\ k (push fx st) = k st.
 Proof.
   unfold inv, total, flat_pushed, flat_pending, push. intros I G.
@@ -296,7 +295,7 @@ Proof.
 Qed.
 
 Lemma render_flat fx st :
-  inv fx st -> (fx = false -> lone_ok (kpen (k st)) (pending st) = true) ->
+  inv fx st -> lone_ok fx (kpen (k st)) (pending st) = true ->
   flatten (render fx st) = total fx st.
 Proof. intros I G. destruct (push_flat fx st I G) as [H _]. exact H. Qed.
 
@@ -304,7 +303,7 @@ Proof. intros I G. destruct (push_flat fx st I G) as [H _]. exact H. Qed.
 Lemma step_total fx fuel st c st' :
   step fx fuel st c = Some st' ->
   inv fx st ->
-  (fx = false -> is_style c = true -> lone_ok (kpen (k st)) (pending st) = true) ->
+  (is_style c = true -> lone_ok fx (kpen (k st)) (pending st) = true) ->
   exists shapes, spec_shapes fx fuel (k st) c = Some shapes /\
                  total fx st' = total fx st ++ shapes /\
                  k st' = core_step fx (k st) c /\ inv fx st'.
@@ -323,7 +322,7 @@ Proof.
   - (* pen / cursor call *)
     destruct (draw_none _ _ _ _ D) as [SS ND]. exists []. rewrite app_nil_r. split; [exact SS|].
     destruct (is_style c) eqn:S.
-    + destruct (push_flat fx st I (fun e => G e eq_refl)) as [PF [PP PK]].
+    + destruct (push_flat fx st I (G eq_refl)) as [PF [PP PK]].
       inversion H; subst; clear H. rewrite PP, PK. split; [|split; [reflexivity|]].
       * unfold total at 1, flat_pending; simpl. rewrite app_nil_r. exact PF.
       * unfold inv. simpl. constructor.
@@ -337,18 +336,17 @@ Qed.
 Lemma run_total fx fuel l : forall st st',
   run fx fuel st l = Some st' ->
   inv fx st ->
-  (fx = false -> guard fuel st l = true) ->
+  guard fx fuel st l = true ->
   exists out, spec_from fx fuel (k st) l = Some out /\ flatten (render fx st') = total fx st ++ out.
 Proof.
   induction l as [|c t IH]; intros st st' R I G.
   - simpl in R. inversion R; subst. exists []. split; [reflexivity|]. rewrite app_nil_r.
-    apply render_flat; [exact I|]. intro E. exact (G E).
+    apply render_flat; [exact I | exact G].
   - simpl in R. destruct (step fx fuel st c) as [st1|] eqn:S; [|discriminate].
-    assert (G1 : fx = false -> is_style c = true -> lone_ok (kpen (k st)) (pending st) = true).
-    { intros E SC. specialize (G E). simpl in G. rewrite SC in G. apply andb_true_iff in G. tauto. }
-    destruct (step_total fx fuel st c st1 S I G1) as [shapes [SS [T [K I1]]]].
-    assert (G2 : fx = false -> guard fuel st1 t = true).
-    { intro E. specialize (G E). simpl in G. subst fx. rewrite S in G. apply andb_true_iff in G. tauto. }
+    simpl in G. rewrite S in G. apply andb_true_iff in G as [G1 G2].
+    assert (G1' : is_style c = true -> lone_ok fx (kpen (k st)) (pending st) = true).
+    { intro SC. rewrite SC in G1. exact G1. }
+    destruct (step_total fx fuel st c st1 S I G1') as [shapes [SS [T [K I1]]]].
     destruct (IH st1 st' R I1 G2) as [out [SF FL]].
     exists (shapes ++ out). simpl. rewrite SS, <- K, SF. split; [reflexivity|].
     rewrite FL, T, app_assoc. reflexivity.
@@ -375,26 +373,33 @@ Qed.
 Lemma inv_pre_init fx : inv fx pre_init.
 Proof. constructor. Qed.
 
-Theorem shows_what_was_drawn_fixed fuel l st :
-  run true fuel pre_init (program l) = Some st ->
-  spec true fuel (program l) = Some (flatten (render true st)).
+(* for every variant of the code: under that variant's guard, the document shows
+   that variant's specification *)
+Theorem shows_what_was_drawn fx fuel l st :
+  run fx fuel pre_init l = Some st ->
+  guard fx fuel pre_init l = true ->
+  spec fx fuel l = Some (flatten (render fx st)).
 Proof.
-  intro R. destruct (run_total true fuel (program l) pre_init st R (inv_pre_init true)) as [out [S F]].
-  - discriminate.
-  - unfold spec. rewrite S, F. reflexivity.
-Qed.
-
-Theorem shows_what_was_drawn_asis fuel l st :
-  run false fuel pre_init (program l) = Some st ->
-  guard fuel pre_init (program l) = true ->
-  spec false fuel (program l) = Some (flatten (render false st)).
-Proof.
-  intros R G. destruct (run_total false fuel (program l) pre_init st R (inv_pre_init false) (fun _ => G)) as [out [S F]].
+  intros R G. destruct (run_total fx fuel l pre_init st R (inv_pre_init fx) G) as [out [S F]].
   unfold spec. rewrite S, F. reflexivity.
 Qed.
 
+(* with both fx_lone and fx_text the guard is trivially true *)
+Lemma guard_trivial fx fuel l : fx_lone fx = true -> fx_text fx = true -> forall st, guard fx fuel st l = true.
+Proof.
+  intros L T. assert (LO : forall p pend, lone_ok fx p pend = true).
+  { intros p [|e [|? ?]]; simpl; try reflexivity. rewrite L, T. reflexivity. }
+  induction l as [|c t IH]; intro st; simpl; [apply LO|].
+  rewrite LO. destruct (is_style c); simpl; destruct (step fx fuel st c); auto.
+Qed.
+
+Theorem shows_what_was_drawn_fixed fuel l st :
+  run all fuel pre_init l = Some st ->
+  spec all fuel l = Some (flatten (render all st)).
+Proof. intro R. apply shows_what_was_drawn; [exact R | apply guard_trivial; reflexivity]. Qed.
+
 Theorem hangs_iff_spec_undefined fx fuel l :
-  run fx fuel pre_init (program l) = None <-> spec fx fuel (program l) = None.
+  run fx fuel pre_init l = None <-> spec fx fuel l = None.
 Proof. apply run_hangs_iff. Qed.
 
 (* ---------- one shape per drawing call, in order ---------- *)
@@ -427,38 +432,102 @@ Proof.
     + rewrite (spec_no_shape fx fuel kk c D) in SS. inversion SS. reflexivity.
 Qed.
 
-(* ---------- histories on which the present code has no local deviation ---------- *)
+(* ---------- histories without the calls the remaining deviations are about ---------- *)
 Definition no_dev (c : cmd) : bool :=
   match c with CEllipse _ _ _ _ _ | CText _ => false | _ => true end.
 Definition agree (a b : core) : Prop := cx a = cx b /\ cy a = cy b /\ kpen a = kpen b.
 
-Lemma spec_shapes_nodev fuel a b c :
-  no_dev c = true -> agree a b -> spec_shapes false fuel a c = spec_shapes true fuel b c.
+Lemma spec_shapes_nodev fx1 fx2 fuel a b c :
+  no_dev c = true -> agree a b -> spec_shapes fx1 fuel a c = spec_shapes fx2 fuel b c.
 Proof.
   intros N [X [Y P]]. destruct c; simpl in *; try discriminate; rewrite ?X, ?Y, ?P; reflexivity.
 Qed.
 
-Lemma core_step_agree a b c : agree a b -> agree (core_step false a c) (core_step true b c).
+Lemma core_step_agree fx1 fx2 a b c : agree a b -> agree (core_step fx1 a c) (core_step fx2 b c).
 Proof.
   intros [X [Y P]]. unfold agree. destruct c; simpl; rewrite ?X, ?Y, ?P; auto.
 Qed.
 
-Lemma spec_from_nodev fuel l : forall a b,
-  forallb no_dev l = true -> agree a b -> spec_from false fuel a l = spec_from true fuel b l.
+Lemma spec_from_nodev fx1 fx2 fuel l : forall a b,
+  forallb no_dev l = true -> agree a b -> spec_from fx1 fuel a l = spec_from fx2 fuel b l.
 Proof.
   induction l as [|c t IH]; intros a b N A; simpl in *; [reflexivity|].
   apply andb_true_iff in N as [N1 N2].
-  rewrite (spec_shapes_nodev fuel a b c N1 A), (IH _ _ N2 (core_step_agree a b c A)). reflexivity.
+  rewrite (spec_shapes_nodev fx1 fx2 fuel a b c N1 A), (IH _ _ N2 (core_step_agree fx1 fx2 a b c A)). reflexivity.
 Qed.
 
-Theorem shows_what_was_drawn_guarded fuel l st :
-  run false fuel pre_init (program l) = Some st ->
-  guard fuel pre_init (program l) = true ->
-  forallb no_dev l = true ->
-  spec true fuel (program l) = Some (flatten (render false st)).
+(* without a text call no text is ever pending, so with fx_lone the guard holds *)
+Definition no_text_item (i : item) : bool := match i with IShape g _ _ => negb (is_text g) | IGrid _ _ _ => true end.
+
+Lemma draw_no_text fx fuel kk c it :
+  no_dev c = true -> draw_item fx fuel kk c = Some (Some it) -> no_text_item it = true.
 Proof.
-  intros R G N. rewrite <- (shows_what_was_drawn_asis fuel l st R G).
-  unfold spec. symmetry. apply spec_from_nodev; [exact N | repeat split].
+  destruct c; simpl; intros N H; try discriminate; try (inversion H; subst; reflexivity).
+  destruct (grid_lines fuel unit); inversion H; subst. reflexivity.
+Qed.
+
+Lemma lone_ok_no_text fx p pend :
+  fx_lone fx = true -> forallb no_text_item pend = true -> lone_ok fx p pend = true.
+Proof.
+  intros L N. destruct pend as [|e [|? ?]]; simpl; try reflexivity. rewrite L. simpl.
+  simpl in N. apply andb_true_iff in N as [N _].
+  destruct e as [g a t|a t l]; simpl in *; [|apply orb_true_r].
+  apply negb_true_iff in N. rewrite N. simpl. apply orb_true_r.
+Qed.
+
+Lemma guard_no_text fx fuel l : fx_lone fx = true -> forall st,
+  forallb no_dev l = true -> forallb no_text_item (pending st) = true -> guard fx fuel st l = true.
+Proof.
+  intros L. induction l as [|c t IH]; intros st N P; simpl.
+  - apply lone_ok_no_text; assumption.
+  - simpl in N. apply andb_true_iff in N as [N1 N2].
+    rewrite (lone_ok_no_text fx _ _ L P).
+    assert (E : (if is_style c then true else true) = true) by (destruct (is_style c); reflexivity).
+    rewrite E. simpl.
+    destruct (step fx fuel st c) as [st1|] eqn:S; [|reflexivity].
+    apply IH; [exact N2|]. unfold step in S.
+    destruct (draw_item fx fuel (k st) c) as [[it|]|] eqn:D; [| |discriminate]; inversion S; subst; simpl.
+    + rewrite forallb_app, P. simpl. rewrite (draw_no_text _ _ _ _ _ N1 D). reflexivity.
+    + destruct (is_style c); [|exact P]. unfold push.
+      destruct (pending st) as [|? [|? ?]] eqn:PE; simpl; rewrite ?PE; reflexivity.
+Qed.
+
+(* the code in force against the INTENDED meaning: no ellipse / text call *)
+Theorem shows_what_was_drawn_guarded fx fuel l st :
+  fx_lone fx = true ->
+  run fx fuel pre_init (program l) = Some st ->
+  forallb no_dev l = true ->
+  spec all fuel (program l) = Some (flatten (render fx st)).
+Proof.
+  intros L R N.
+  assert (N' : forallb no_dev (program l) = true) by exact N.
+  rewrite <- (shows_what_was_drawn fx fuel (program l) st R (guard_no_text fx fuel (program l) L pre_init N' eq_refl)).
+  unfold spec. symmetry. apply spec_from_nodev; [exact N' | repeat split].
+Qed.
+
+(* ---------- argument validation in gridnFunc ---------- *)
+Lemma effective_accepted fx l : forallb (wrapper_accepts fx) (effective fx l) = true.
+Proof.
+  induction l as [|c t IH]; simpl; [reflexivity|].
+  destruct (wrapper_accepts fx c) eqn:E; simpl; [rewrite E, IH|]; reflexivity.
+Qed.
+
+Lemma effective_all_accepted fx l : rejected fx l = false -> effective fx l = l.
+Proof.
+  unfold rejected. induction l as [|c t IH]; simpl; [reflexivity|].
+  destruct (wrapper_accepts fx c); simpl; [intro H; rewrite (IH H); reflexivity | discriminate].
+Qed.
+
+(* with the check in force, a unit <= 0 never reaches the loop *)
+Lemma gridn_nonpositive_rejected fx u c :
+  fx_gridn fx = true -> PrimFloat.leb u 0%float = true -> wrapper_accepts fx (CGridn u c) = false.
+Proof. intros G L. simpl. rewrite G, L. reflexivity. Qed.
+
+Lemma effective_units_positive fx l u c :
+  fx_gridn fx = true -> In (CGridn u c) (effective fx l) -> PrimFloat.leb u 0%float = false.
+Proof.
+  intros G I. pose proof (effective_accepted fx l) as A. rewrite forallb_forall in A.
+  specialize (A _ I). simpl in A. rewrite G in A. apply negb_true_iff in A. exact A.
 Qed.
 
 (* ---------- gridn's loop ---------- *)
@@ -528,4 +597,20 @@ Proof.
     replace (Prim2SF (tx nan)) with SpecFloat.S754_nan by (vm_compute; reflexivity).
     unfold SF64add, SpecFloat.SFadd. destruct (Prim2SF i); reflexivity. }
   rewrite leb_spec, N. simpl. lia.
+Qed.
+
+(* a second instance of the measure hypothesis: unit = +infinity *)
+Lemma infinity_measure :
+  forall i, PrimFloat.leb i grid_bound = true ->
+            ((fun x => if PrimFloat.leb x grid_bound then 1 else 0) (fadd i (tx infinity)) <
+             (fun x => if PrimFloat.leb x grid_bound then 1 else 0) i)%nat.
+Proof.
+  intros i E. cbv beta. rewrite E.
+  assert (N : PrimFloat.leb (fadd i (tx infinity)) grid_bound = false).
+  { rewrite leb_spec. unfold fadd. rewrite add_spec.
+    replace (Prim2SF (tx infinity)) with (SpecFloat.S754_infinity false) by (vm_compute; reflexivity).
+    replace (Prim2SF grid_bound) with (SpecFloat.S754_finite false 8796093022208000 (-43)) by (vm_compute; reflexivity).
+    unfold SF64add, SpecFloat.SFadd. destruct (Prim2SF i) as [s|s| |s m e]; try reflexivity.
+    destruct s; reflexivity. }
+  rewrite N. lia.
 Qed.
